@@ -213,7 +213,11 @@ def run_ro(spec, ctx):
                     C.solve(m, s)
                     events.append('solve:' + s)
                 except Exception as e:
-                    if 'license' not in str(e):
+                    if 'license' in str(e):
+                        pass
+                    elif C.solver_library_error(e):
+                        ctx.count('mid_solve_solver_library_error')
+                    else:
                         raise
         state['mid'] += 1
         ctx.count('mid_solves')
@@ -263,6 +267,9 @@ def run_ro(spec, ctx):
                 distractor(BH)
         rH = solve_val(BH.model, sname)
     except Exception as e:
+        if C.solver_library_error(e):
+            ctx.count('solver_library_error')
+            return {'status': 'skip', 'reason': 'solver library raised: %s' % type(e).__name__}
         return {'status': 'violation', 'mechanism': 'history_raises:' + _hist_class(events, ops),
                 'detail': {'what': 'the history raises, the fresh build of the same model solves',
                            'error': '%s: %s' % (type(e).__name__, str(e)[:100]),
@@ -382,7 +389,11 @@ def run_dro(spec, ctx):
                     events.append('solve:' + s)
                     ctx.count('mid_solves')
                 except Exception as e:
-                    if 'license' not in str(e):
+                    if 'license' in str(e):
+                        pass
+                    elif C.solver_library_error(e):
+                        ctx.count('mid_solve_solver_library_error')
+                    else:
                         raise
         if spec.get('late_moment'):
             lm = spec['late_moment']
@@ -408,6 +419,9 @@ def run_dro(spec, ctx):
                 BH.add_row(row)
         rH = solve_val(m, sname)
     except Exception as e:
+        if C.solver_library_error(e):
+            ctx.count('solver_library_error')
+            return {'status': 'skip', 'reason': 'solver library raised: %s' % type(e).__name__}
         mech = 'history_raises:' + _hist_class(events, ops)
         if 'late_dvar' in events and isinstance(e, ValueError) and 'matmul' in str(e):
             mech = 'dro_dvar_after_constraints_raises'
